@@ -44,7 +44,7 @@ pub fn minimise(cluster: &ClusterCfg, trace: &[Action], v: &Violation, budget_s:
             Action::Dup { .. } => 4,
             Action::AppReady { .. } => 5,
             Action::Fsync { .. } => 6,
-            Action::Notify { .. } => 7,
+            Action::Notify { .. } | Action::NotifyOne { .. } => 7,
             Action::Apply { .. } => 8,
             Action::Propose { .. } => 9,
             Action::ProposeBatch { .. } => 10,
@@ -75,6 +75,7 @@ pub fn minimise(cluster: &ClusterCfg, trace: &[Action], v: &Violation, budget_s:
             | Action::AppReady { n, .. }
             | Action::Fsync { n, .. }
             | Action::Notify { n }
+            | Action::NotifyOne { n }
             | Action::Apply { n, .. }
             | Action::Propose { n, .. }
             | Action::ProposeBatch { n, .. }
